@@ -135,8 +135,8 @@ let run_struct c =
     let decoded = List.map (fun sf -> json_ints (List.map int_of_z (sem_subframe f.f_hdr.h_bs sf))) f.f_subs in
     let rew = (match write_frame f with Some b -> hex_of_bytes b | None -> "") in
     let pcm = List.map (fun c -> json_ints (List.map int_of_z c)) (sem_frame f) in
-    Printf.sprintf "{\"end\":\"ok\",\"rewritten\":\"%s\",\"decoded\":[%s],\"wf\":%b,\"spec\":%b,\"pcm\":[%s],\"number\":%d,\"bs\":%d}"
-      rew (String.concat "," decoded) (wf_frame si f) (spec_frame f) (String.concat "," pcm) (int_of_n f.f_hdr.h_number) (int_of_n f.f_hdr.h_bs)
+    Printf.sprintf "{\"end\":\"ok\",\"rewritten\":\"%s\",\"decoded\":[%s],\"wf\":%b,\"spec\":%b,\"pcm\":[%s],\"number\":%d,\"bs\":%d,\"canonical\":%b}"
+      rew (String.concat "," decoded) (wf_frame si f) (spec_frame f) (String.concat "," pcm) (int_of_n f.f_hdr.h_number) (int_of_n f.f_hdr.h_bs) (frame_canonical si bytes)
   | r -> Printf.sprintf "{\"end\":\"%s\"}" (res_name r)
 
 (* the strict stream validator (Spec.spec_stream): judge a whole file, return the PCM it defines *)
